@@ -7,7 +7,7 @@ import time
 from . import sut, wire
 
 BEHAVIOURS = ["always", "never", "stop2", "late-within", "late-beyond", "wrong-token", "unsolicited",
-              "chatty-silent", "late-long", "never", "always", "slow-register", "slow-register-silent", "cap-renegotiate", "late-once-silent"]
+              "chatty-silent", "late-long", "never", "always", "slow-register", "slow-register-silent", "cap-renegotiate", "late-once-silent", "cap-open-silent", "cap-open-answering"]
 
 
 class Lag(threading.Thread):
@@ -61,6 +61,9 @@ class Peer:
         self.next_chat = self.t_reg + 0.5
         self.n = 0
 
+    def r_capline(self):
+        return ["CAP LS 302", "CAP REQ :multi-prefix", "CAP REQ :bogus"][self.idx % 3]
+
     def on_line(self, m, now):
         if not self.registered:
             if m.verb == "001":
@@ -78,7 +81,7 @@ class Peer:
             tok = m.params[-1] if m.params else ""
             b = self.b
             answer = None
-            if b in ("always", "unsolicited", "slow-register", "cap-renegotiate"):
+            if b in ("always", "unsolicited", "slow-register", "cap-renegotiate", "cap-open-answering"):
                 answer = (now, tok)
             elif b == "wrong-token":
                 answer = (now, "not-the-token")
@@ -127,6 +130,10 @@ class Peer:
                 self.user_due = None
                 self.c.send("USER ck 0 * :slow one")
             return
+        if self.b.startswith("cap-open") and self.renegotiate_at is not None and now >= self.renegotiate_at:
+            # a capability negotiation opened in mid-session and never closed (legal): the keep-alive rules go on
+            self.renegotiate_at = None
+            self.c.send(self.r_capline())
         if self.b == "cap-renegotiate" and self.renegotiate_at is not None and now >= self.renegotiate_at:
             # capability negotiation in mid-session: "any other traffic on the connection in the meantime"
             self.renegotiate_at = now + 1.3 if self.n < 6 else None
@@ -191,7 +198,7 @@ def run_config(args):
                 out["peers"].append(rec)
                 tag = "P%d-Q%d" % (P, Q)
                 responsive = p.b in ("always", "late-within", "late-long", "wrong-token", "unsolicited", "slow-register",
-                                     "cap-renegotiate")
+                                     "cap-renegotiate", "cap-open-answering")
                 if not p.registered:
                     # the statement is about registered clients only: nothing to judge
                     out["inconclusive"] = "slow registrant %s never got its welcome (closed: %s, %s)" % (
